@@ -449,6 +449,110 @@ func f64GenCases(r *Rand, tier string) []string {
 	return out
 }
 
+// ---------------------------------------------------------------- float helpers through the expr op
+
+// f64ArgText: a textual float argument for the float-valued helpers (mostly accepted by ParseFloat).
+func f64ArgText(r *Rand) string {
+	switch r.Intn(12) {
+	case 0:
+		return Pick(r, f64DecStrings)
+	case 1:
+		return Pick(r, f64OddStrings)
+	case 2:
+		return Pick(r, c11Floats)
+	case 3, 4:
+		return f64RandDecimal(r)
+	case 5: // rendering of an arbitrary float
+		x := math.Float64frombits(f64RandBits(r))
+		return strconv.FormatFloat(x, Pick(r, []byte{'f', 'e', 'g', 'x'}), -1, 64)
+	case 6: // integers, also beyond 2^53
+		return c11RandInt(r)
+	case 7: // around the comma threshold of hf and the unit steps
+		base := Pick(r, []float64{1000, -1000, 999.5, 1e6, 1024, 1048576, 1e3 - 1e-5, 999.99995, 0.5, 2.5, 0.125, 1e15, 1e21, 1e22})
+		x := math.Float64frombits(math.Float64bits(base) + uint64(r.Range(0, 4)) - 2)
+		return strconv.FormatFloat(x, 'f', -1, 64)
+	case 8: // k/2^j: exact decimal ties for round / percent / hf
+		return strconv.FormatFloat(float64(r.Range(-40000, 40000))/float64(int(1)<<uint(r.Range(1, 7))), 'f', -1, 64)
+	}
+	return strconv.Itoa(r.Range(-3000, 3000))
+}
+
+var f64Precs = []string{"0", "1", "2", "3", "4", "6", "10", "17", "20", "-1", "-3", "40", "1024", "1025", "x", ""}
+
+func f64ExprCases(r *Rand, tier string) []string {
+	n := 40
+	if tier == "thorough" {
+		n = 2500
+	}
+	var out []string
+	arg := func(v string) c11Arg { return c11Arg{val: v, mode: c11Mode(r), quote: r.Chance(1, 5)} }
+	for i := 0; i < n; i++ {
+		for _, name := range []string{"sumf", "subf", "multf", "divf"} {
+			k := r.Range(2, 4)
+			args := make([]c11Arg, k)
+			for j := range args {
+				args[j] = arg(f64ArgText(r))
+			}
+			out = c11Both(out, name, args)
+		}
+		for _, name := range []string{"lt", "gt", "lte", "gte"} {
+			a := f64ArgText(r)
+			b := f64ArgText(r)
+			if r.Chance(1, 4) { // the same value in another spelling
+				if v, err := strconv.ParseFloat(a, 64); err == nil {
+					b = strconv.FormatFloat(v, Pick(r, []byte{'e', 'g', 'x', 'f'}), Pick(r, []int{-1, 17, 20}), 64)
+				}
+			}
+			out = c11Both(out, name, []c11Arg{arg(a), arg(b)})
+		}
+		for _, name := range []string{"ceil", "floor", "sqrt", "hf", "isnum"} {
+			out = c11Both(out, name, []c11Arg{arg(f64ArgText(r))})
+		}
+		out = c11Both(out, "round", []c11Arg{arg(f64ArgText(r)), {val: Pick(r, f64Precs)}})
+		out = c11Both(out, "round", []c11Arg{arg(f64ArgText(r))})
+		switch r.Intn(3) {
+		case 0:
+			out = c11Both(out, "percent", []c11Arg{arg(f64ArgText(r)), {val: Pick(r, f64Precs)}})
+		case 1:
+			out = c11Both(out, "percent", []c11Arg{arg(f64ArgText(r)), {val: Pick(r, f64Precs)}, arg(f64ArgText(r))})
+		default:
+			out = c11Both(out, "percent", []c11Arg{arg(f64ArgText(r)), {val: Pick(r, f64Precs)}, arg(f64ArgText(r)), arg(f64ArgText(r))})
+		}
+		// unit scalers: every magnitude, both signs, around the steps and beyond 2^53
+		var v int64
+		switch r.Intn(5) {
+		case 0:
+			v = int64(r.U64() >> uint(r.Intn(64)))
+		case 1:
+			p := int64(1)
+			for j := r.Intn(7); j > 0; j-- {
+				p *= Pick(r, []int64{1000, 1024})
+			}
+			v = p*int64(r.Range(1, 1100)) + int64(r.Range(-2, 2))
+		case 2:
+			v = int64(1)<<uint(r.Range(9, 62)) + int64(r.Range(-2, 2))
+		case 3:
+			v = Pick(r, []int64{999, 1000, 1023, 1024, 999999, 1000000, 999950, 999949, 1048575, 1023999, 1 << 53, 1<<53 + 1, math.MaxInt64, math.MinInt64, -1000, -1024, -999})
+		default:
+			v = int64(r.Range(-5000, 5000))
+		}
+		if r.Chance(1, 4) {
+			v = -v
+		}
+		vs := strconv.FormatInt(v, 10)
+		if r.Chance(1, 10) {
+			vs = strconv.FormatUint(r.U64(), 10)
+		}
+		name := Pick(r, []string{"bytesize", "bytesizesi", "downscale"})
+		if r.Bool() {
+			out = c11Both(out, name, []c11Arg{arg(vs), {val: Pick(r, f64Precs)}})
+		} else {
+			out = c11Both(out, name, []c11Arg{arg(vs)})
+		}
+	}
+	return out
+}
+
 func c11F64Stats(cases []string, st map[string]int) {
 	for _, c := range cases {
 		f := strings.Fields(c)
@@ -485,7 +589,7 @@ func c11F64Stats(cases []string, st map[string]int) {
 }
 
 func init() {
-	c11ExtraGen = append(c11ExtraGen, f64GenCases)
+	c11ExtraGen = append(c11ExtraGen, f64GenCases, f64ExprCases)
 	c11ExtraRun = append(c11ExtraRun, c11F64Run)
 	c11ExtraStats = append(c11ExtraStats, c11F64Stats)
 }
